@@ -473,68 +473,76 @@ theorem C06_line_fixed_witness : lineOut { cap := 1000, alloc := .fixed } 999 = 
 /-! ## `EXPRlength` -/
 
 mutual
-theorem PExpr.strLen_le_bound (fmax smax base per : Nat) (hb : fmax ≤ base) (hp : smax ≤ per) :
-    ∀ e : PExpr, e.wf fmax smax → e.strLen ≤ e.bound base per
-  | .leaf f n, h => by
+theorem PExpr.strLen_le_bound (fmax smax wfac base per kf : Nat) (hb : fmax ≤ base) (hp : smax ≤ per) (hk : wfac ≤ kf) :
+    ∀ e : PExpr, e.wf fmax smax wfac → e.strLen ≤ e.bound base per kf
+  | .leaf f n x, h => by
     simp only [PExpr.wf] at h
+    have : wfac * n ≤ kf * n := Nat.mul_le_mul_right n hk
     simp only [PExpr.strLen, PExpr.bound]; omega
   | .query f n a b, h => by
     simp only [PExpr.wf] at h
-    have ha := PExpr.strLen_le_bound fmax smax base per hb hp a h.2.1
-    have hb' := PExpr.strLen_le_bound fmax smax base per hb hp b h.2.2
+    have ha := PExpr.strLen_le_bound fmax smax wfac base per kf hb hp hk a h.2.1
+    have hb' := PExpr.strLen_le_bound fmax smax wfac base per kf hb hp hk b h.2.2
     simp only [PExpr.strLen, PExpr.bound]; omega
   | .funcall f n as, h => by
     simp only [PExpr.wf] at h
-    have ha := PArgs.strLen_le_bound fmax smax base per hb hp as h.2
+    have ha := PArgs.strLen_le_bound fmax smax wfac base per kf hb hp hk as h.2
     simp only [PExpr.strLen, PExpr.bound]; omega
   | .op f a b, h => by
     simp only [PExpr.wf] at h
-    have ha := PExpr.strLen_le_bound fmax smax base per hb hp a h.2.1
-    have hb' := PExpr.strLen_le_bound fmax smax base per hb hp b h.2.2
+    have ha := PExpr.strLen_le_bound fmax smax wfac base per kf hb hp hk a h.2.1
+    have hb' := PExpr.strLen_le_bound fmax smax wfac base per kf hb hp hk b h.2.2
     simp only [PExpr.strLen, PExpr.bound]; omega
   | .list f as, h => by
     simp only [PExpr.wf] at h
-    have ha := PArgs.strLen_le_bound fmax smax base per hb hp as h.2
+    have ha := PArgs.strLen_le_bound fmax smax wfac base per kf hb hp hk as h.2
     simp only [PExpr.strLen, PExpr.bound]; omega
-theorem PArgs.strLen_le_bound (fmax smax base per : Nat) (hb : fmax ≤ base) (hp : smax ≤ per) :
-    ∀ as : PArgs, as.wf fmax smax → as.strLen ≤ as.bound base per
+theorem PArgs.strLen_le_bound (fmax smax wfac base per kf : Nat) (hb : fmax ≤ base) (hp : smax ≤ per) (hk : wfac ≤ kf) :
+    ∀ as : PArgs, as.wf fmax smax wfac → as.strLen ≤ as.bound base per kf
   | .nil, _ => by simp [PArgs.strLen, PArgs.bound]
   | .cons s e r, h => by
     simp only [PArgs.wf] at h
-    have he := PExpr.strLen_le_bound fmax smax base per hb hp e h.2.1
-    have hr := PArgs.strLen_le_bound fmax smax base per hb hp r h.2.2
+    have he := PExpr.strLen_le_bound fmax smax wfac base per kf hb hp hk e h.2.1
+    have hr := PArgs.strLen_le_bound fmax smax wfac base per kf hb hp hk r h.2.2
     simp only [PArgs.strLen, PArgs.bound]; omega
 end
 
-def exprLenCfgSafe (c : ExprLenCfg) (fmax smax : Nat) : Bool :=
-  c.sized && decide (fmax ≤ c.base) && decide (smax ≤ c.perArg) && decide (1 ≤ c.needExtra)
+def exprLenCfgSafe (c : ExprLenCfg) (fmax smax wfac : Nat) : Bool :=
+  c.sized && decide (fmax ≤ c.base) && decide (smax ≤ c.perArg) && decide (1 ≤ c.needExtra) && decide (wfac ≤ c.nameFactor)
 
-theorem exprLenOut_safe (c : ExprLenCfg) (fmax smax : Nat) (h : exprLenCfgSafe c fmax smax = true)
-    (e : PExpr) (hw : e.wf fmax smax) : exprLenOut c e = .ok e.strLen := by
+theorem exprLenOut_safe (c : ExprLenCfg) (fmax smax wfac : Nat) (h : exprLenCfgSafe c fmax smax wfac = true)
+    (e : PExpr) (hw : e.wf fmax smax wfac) : exprLenOut c e = .ok e.strLen := by
   simp [exprLenCfgSafe] at h
-  obtain ⟨⟨⟨hs, hb⟩, hp⟩, hn⟩ := h
-  have hle := PExpr.strLen_le_bound fmax smax c.base c.perArg hb hp e hw
+  obtain ⟨⟨⟨⟨hs, hb⟩, hp⟩, hn⟩, hk⟩ := h
+  have hle := PExpr.strLen_le_bound fmax smax wfac c.base c.perArg c.nameFactor hb hp hk e hw
   unfold exprLenOut
   simp only [hs, Bool.true_and]
-  by_cases hc : c.cap < e.bound c.base c.perArg + c.needExtra
-  · have : e.strLen + 1 ≤ e.bound c.base c.perArg + c.needExtra := by omega
+  by_cases hc : c.cap < e.bound c.base c.perArg c.nameFactor + c.needExtra
+  · have : e.strLen + 1 ≤ e.bound c.base c.perArg c.nameFactor + c.needExtra := by omega
     simp [hc, this]
   · have : e.strLen + 1 ≤ c.cap := by omega
     simp [hc, this]
 
-/-- **C06, exppp `EXPRlength`**: for every printable expression tree whose per-node fixed text and list separators
-are within what `EXPRstring` emits (regenerated maxima), `EXPRstring` stays inside the buffer `EXPRlength`
-hands it; identifiers, strings and binary literals may be arbitrarily long, nesting arbitrarily deep. -/
-theorem C06_no_overflow_exprlength (e : PExpr) (hw : e.wf exprFixedMax exprSepMax) :
+/-- **C06, exppp `EXPRlength`**: for every printable expression tree whose per-node fixed text, list separators and bytes
+per character of a literal are within what `EXPRstring` emits (regenerated from EXPRstring), `EXPRstring` stays inside the
+buffer that `EXPRlength` sizes with `EXPRstring_bound` (constants regenerated from EXPRstring_bound): producer and capacity
+agree for every literal; identifiers, strings and binary literals may be arbitrarily long, nesting arbitrarily deep. -/
+theorem C06_no_overflow_exprlength (e : PExpr) (hw : e.wf exprFixedMax exprSepMax exprNameWriteFactor) :
     exprLenOut exprLenCfg e = .ok e.strLen :=
-  exprLenOut_safe exprLenCfg exprFixedMax exprSepMax (by decide) e hw
+  exprLenOut_safe exprLenCfg exprFixedMax exprSepMax exprNameWriteFactor (by decide) e hw
 
 /-- the tree before `fix: C06-3`: fixed `buffer[10000]` — a 10 000-character attribute name overflows -/
 theorem C06_exprlength_fixed_witness :
-    exprLenOut { cap := 10000, sized := false, base := 0, perArg := 0, needExtra := 0 } (.leaf 0 10000) = .overflow 10000 := by
+    exprLenOut { cap := 10000, sized := false, base := 0, perArg := 0, needExtra := 0, nameFactor := 1 } (.leaf 0 10000 0) = .overflow 10000 := by
   decide
 
-example : (PExpr.funcall 3 4 (.cons 0 (.leaf 0 9) (.cons 2 (.leaf 1 0) .nil))).wf exprFixedMax exprSepMax := by
+/-- seeded regression C06-d2: EXPRstring doubles every apostrophe of a string literal (2 bytes per character at most, plus
+the two enclosing ones) while EXPRstring_bound still counts the text once: 6000 apostrophes need 12 002 bytes, the block has 6129 -/
+theorem C06_exprlength_apostrophes_witness :
+    exprLenOut { cap := 10000, sized := true, base := 128, perArg := 3, needExtra := 1, nameFactor := 1 } (.leaf 2 6000 6000) = .overflow 10000 := by
+  decide
+
+example : (PExpr.funcall 3 4 (.cons 0 (.leaf 0 9 0) (.cons 2 (.leaf 1 0 0) .nil))).wf exprFixedMax exprSepMax exprNameWriteFactor := by
   simp [PExpr.wf, PArgs.wf]; decide
 
 /-! ## exp2cxx / exp2python case-conversion buffers and the identifier gate -/
